@@ -205,4 +205,24 @@ theorem finite_cell_row_sum (phi a b : K) (edges : List K) (hinc : Inc edges) (h
   · exact key a b (le_of_lt hlt) ha.1 hb.2
   · exact key b a (not_lt.mp hlt) hb.1 ha.2
 
+/-- a cell without any bound contributes nothing -/
+theorem cellRow_none_sum (phi : K) (edges : List K) : (cellRow phi none edges).sum = 0 := by
+  induction edges with
+  | nil => simp [cellRow]
+  | cons a rest ih =>
+    cases rest with
+    | nil => simp [cellRow]
+    | cons b r =>
+      simp only [cellRow, List.sum_cons] at ih ⊢
+      rw [ih]; simp
+
+/-- a cell with one bound missing is the point cell at the other bound, and passes all of `phi` on
+    when that bound lies within the bins -/
+theorem half_cell_row_sum (phi t : K) (o1 o2 : Option K) (ho : (o1 = some t ∧ o2 = none) ∨ (o1 = none ∧ o2 = some t))
+    (edges : List K) (hinc : Inc edges) (hlen : 2 ≤ edges.length)
+    (ht : edges.headD 0 ≤ t ∧ t ≤ edges.getLastD 0) :
+    (cellRow phi (cellInterval o1 o2) edges).sum = phi := by
+  rcases ho with ⟨h1, h2⟩ | ⟨h1, h2⟩ <;> subst h1 <;> subst h2 <;>
+    simp only [cellInterval] <;> rw [cellRow_point_sum phi t edges hinc hlen, if_pos ht]
+
 end Xgcm
